@@ -87,7 +87,7 @@ def pre_line(line: str) -> bool:
     return len(line) <= P.L and in_shard(len(line))
 
 
-@harness(pre=pre_line, quick=dict(L=12, timeout=150), thorough=dict(L=15, timeout=1200),
+@harness(pre=pre_line, quick=dict(L=12, timeout=300), thorough=dict(L=15, timeout=1200),
          nshards=dict(quick=1, thorough=4), reach=["accepted", "bad_version"],
          units=["httputil.parse_request_start_line", "httputil._ABNF.request_line"],
          stubs=[], outside=["lines longer than L code points (Engine B covers the regex for every length)",
@@ -137,7 +137,7 @@ def pre_total(f: int, s: str) -> bool:
     return 0 <= f <= 3 and len(s) <= P.L and in_shard(f)
 
 
-@harness(pre=pre_total, quick=dict(L=4, timeout=150), thorough=dict(L=6, timeout=1200),
+@harness(pre=pre_total, quick=dict(L=3, timeout=150), thorough=dict(L=6, timeout=1200),
          nshards=4, reach=["quoted_cookie", "with_port", "param"],
          units=["httputil._parse_header", "httputil._parseparam", "httputil.parse_cookie",
                 "httputil._unquote_cookie", "httputil.split_host_and_port"],
@@ -174,13 +174,13 @@ def _is_token(s):
     if len(s) == 0:
         return False
     for c in s:
-        if c not in TCHARS:
+        if not _tchar(c):
             return False
     return True
 
 
-def pre_rt(key: str, params: List[Tuple[str, str]]) -> bool:
-    if not (len(key) <= P.L and len(params) <= P.NP):
+def pre_rt(kb: bool, params: List[Tuple[str, str]]) -> bool:
+    if not (len(params) <= P.NP):
         return False
     for p, v in params:
         if not (len(p) <= P.L and len(v) <= P.L):
@@ -188,15 +188,14 @@ def pre_rt(key: str, params: List[Tuple[str, str]]) -> bool:
     return in_shard(len(params))
 
 
-@harness(pre=pre_rt, quick=dict(L=2, NP=1, timeout=200), thorough=dict(L=2, NP=2, timeout=1200),
+@harness(pre=pre_rt, quick=dict(L=1, NP=1, timeout=200), thorough=dict(L=2, NP=2, timeout=1200),
          nshards=dict(quick=2, thorough=3), reach=["roundtrip"],
          units=["httputil._encode_header", "httputil._parse_header", "httputil._parseparam"],
          stubs=[], outside=["parameter names containing '*' (RFC 2231 extended-parameter syntax, decoded on "
                             "purpose)", "non-token (quoted) values: _encode_header does not quote",
-                            "tokens longer than L characters, more than NP parameters"])
-def h_param_roundtrip(key: str, params: List[Tuple[str, str]]):
-    if not _is_token(key):
-        return
+                            "tokens longer than L characters, more than NP parameters", "main value from a pool of two tokens"])
+def h_param_roundtrip(kb: bool, params: List[Tuple[str, str]]):
+    key = "permessage-deflate" if kb else "k"
     pd = {}
     for p, v in params:
         if not (_is_token(p) and _is_token(v)) or "*" in p:
@@ -215,7 +214,7 @@ def pre_s(s: str) -> bool:
     return len(s) <= P.L
 
 
-@harness(pre=pre_s, quick=dict(L=3, timeout=150), thorough=dict(L=5, timeout=1200),
+@harness(pre=pre_s, quick=dict(L=2, timeout=150), thorough=dict(L=3, timeout=1200),
          nshards=1, reach=["escaped_something"],
          units=["util.re_unescape", "util._re_unescape_replacement"],
          stubs=["re.escape is replaced by a pure-Python equivalent of CPython's table (backslash before "
